@@ -98,14 +98,17 @@ def r1(ctx, rep):
         st = syn.static("ident::RESERVED_WORDS")
         disp_words = set(strs(st["init"]))
         # and the test must lead to escaping
-        ne = [s for s in dp["body"]["s"] if s.get("k") == "local" and show(s["pat"]) == "needs_escape"]
-        if not ne or "RESERVED_WORDS.contains(" not in show(ne[0]["init"], maxdepth=14):
+        # the reserved-word test must be part of the condition that decides about backticks (locals inlined)
+        Ad = __import__("alpha").Inliner(dp)
+        conds = [Ad.show(n["c"]) for n in walk(dp["body"]) if n.get("k") == "if"]
+        if not any("RESERVED_WORDS.contains(" in c_ for c_ in conds):
             disp_words = set()
     wi = syn.fn("codegen::ast::write_ident_part", crate="prqlc")
     cond_ok = False
     for n in walk(wi["body"]):
         if n.get("k") == "if":
-            cond_ok = show(n["c"]) == "(valid_prql_ident().is_match(s) && !keywords().contains(s))" and "`" in show_stmts(n["e"])
+            wp = [p_["name"] for p_ in wi.get("params", []) if isinstance(p_, dict) and "name" in p_] or ["s"]
+            cond_ok = show(n["c"]) == f"(valid_prql_ident().is_match({wp[0]}) && !keywords().contains({wp[0]}))" and "`" in show_stmts(n["e"])
     rep.check(cond_ok, "write_ident_part:shape", "write_ident_part must print bare only when the regex matches AND the word is not a keyword, else in backticks", file=wi["file"], line=wi["l"], fn=wi["path"])
     for w in sorted(words):
         rep.check(w in fmt_words, f"codegen-keyword:{w}",
@@ -347,7 +350,9 @@ def r3(ctx, rep):
     rep.check(ok and tail == "!assoc_matches", "needs_parenthesis:assoc", "at equal strength parentheses may be dropped only when the child's associativity matches its side", file=np["file"], line=np["l"], fn=np["path"])
     # write_within raises the context to the parent's strength; Binary sets the side
     ww = syn.fn("codegen::ast::write_within", crate="prqlc")
-    rep.check("opt.context_strength = opt.context_strength.max(parent_strength)" in show_stmts(ww["body"]) and "let parent_strength = binding_strength(parent)" in show_stmts(ww["body"]),
+    Aw = __import__("alpha").Inliner(ww)
+    asg = [Aw.show(n["rhs"]) for n in walk(ww["body"]) if n.get("k") == "assign" and show(n["lhs"]).endswith(".context_strength")]
+    rep.check(len(asg) == 1 and re.fullmatch(r"(\w+)\.context_strength\.max\(binding_strength\(parent\)\)", asg[0]) is not None,
               "write_within", "write_within must raise the context strength to the parent's strength", file=ww["file"], line=ww["l"], fn=ww["path"])
     wk = [x for x in syn.find_fns("<ExprKind as WriteSource>::write", crate="prqlc")]
     if len(wk) != 1:
